@@ -25,7 +25,7 @@ prop("C03", run="^TestC03", level="exploration",
      technique="property-based testing (rapid): length/consumption invariants over generated frames, frame sequences and primitive values", design="DESIGN.md 4 C03")
 
 prop("C05", run="^TestC05", level="exploration",
-     quick=(8, 250, 900), thorough=(8, 8000, 7200),
+     quick=(12, 400, 900), thorough=(12, 10000, 7200),
      rule=FRAME_GEN + " through the paths DecodeRawFrame+ConvertFromRawFrame, DecodeHeader+DecodeBody, DecodeHeader+DecodeRawBody, DecodeHeader+DiscardBody (seekable and not), "
           "ConvertToRawFrame+EncodeRawFrame, EncodeBody+EncodeHeader, each compared with DecodeFrame and each required to stop exactly at a sentinel; re-encode clause on valid and mutated "
           "(flag/opcode/version/bit-flip/byte-set/trailing-garbage) inputs that still decode; non-trivial = non-empty body (paths) / mutated input that differs from the encoder's output (re-encode); distinct by frame or input hash",
